@@ -1,85 +1,98 @@
 /-
-  C05 — the trait-default bisection `inverse_cdf` (src/distribution/mod.rs:141), instantiated by the
-  translator for Dirac (`Dirac.inverse_cdf`, `Dirac.inverse_cdf.loop1/3/5`).
-  * `dirac_inverse_cdf_bisect_bound`: the generic error bound `2⁻¹⁵·max(1,|Q(p)|)` holds for Dirac
-    (via the abstract algorithm and bound in `Statrs.Lemmas.Bisect`, reusable for Chi/InverseGamma).
-  * `dirac_inverse_cdf_counterexample`: the other C05 clauses (result inside `[min,max]`,
-    `cdf(inverse_cdf p) = p`) FAIL for Dirac.
+  C05 — Dirac's own `inverse_cdf` and the trait-default bisection `inverse_cdf`
+  (src/distribution/mod.rs:141).
+
+  * Dirac (src/distribution/dirac.rs:127) no longer inherits the trait-default bisection: its
+    `inverse_cdf` is the closed form "panic unless `0 ≤ p ≤ 1`, else the atom `v`".
+    `dirac_inverse_cdf_eq(_any)`: `Dirac.inverse_cdf d p = d.f_0` for every `p ∈ [0,1]` (every carrier);
+    consequences: result in `[min,max]`, monotone in `p`, `cdf (inverse_cdf p) = 1 ≥ p`,
+    `inverse_cdf (cdf x) = v`, the result is the smallest `x` with `cdf x ≥ p` for `0 < p ≤ 1`;
+    outside `[0,1]` it panics.  The former finding `dirac_inverse_cdf_counterexample` (the inherited
+    bisection returned `-2⁻¹⁵` for the point mass at 0, outside `[min,max]`, `cdf (inverse_cdf p) = 0 ≠ p`)
+    is no longer true of the model and was removed.
+  * The generic error bound `2⁻¹⁵·max(1,|Q(p)|)` of the abstract default loop lives in
+    `Statrs.Lemmas.Bisect` (`bisect_bound`, for an arbitrary `F : ℝ → ℝ`).  It is instantiated here for
+    the families whose generated `inverse_cdf` still IS the default loop (`X.inverse_cdf.loop1/3/5`):
+    Chi and InverseGamma (`chi_inverse_cdf_bisect_bound_rel`, `inverse_gamma_inverse_cdf_bisect_bound_rel`,
+    relative to `Q` being the `p`-quantile of the family's abstract-special-function cdf).
 -/
 import Statrs.Real.Simp
 import Statrs.Lemmas.Bisect
 import Statrs.Gen.D_dirac
+import Statrs.Gen.D_chi
+import Statrs.Gen.D_inverse_gamma
 import Mathlib.Tactic
 set_option linter.unusedVariables false
 namespace Statrs.Props.C05
 open Statrs Statrs.Gen
 
-/-! ## the generated loops are the abstract bisection of `Statrs.Lemmas.Bisect` -/
+/-! ## Dirac: `inverse_cdf p = v` exactly -/
 
-theorem dirac_loop1_eq (d : Dirac ℝ) (p : ℝ) : ∀ (fuel : Nat) (low : ℝ),
-    Dirac.inverse_cdf.loop1 fuel p d low = Lemmas.Bisect.loop1 (Dirac.cdf d) fuel p low := by
-  intro fuel
-  induction fuel with
-  | zero => intro low; rfl
-  | succ f ih =>
-    intro low
-    rw [Dirac.inverse_cdf.loop1, Lemmas.Bisect.loop1]
-    dsimp only
-    rw [ih]
+/-- Dirac, every carrier (branch logic only, so also IEEE `Float`): for `0.0 ≤ p ≤ 1.0` the
+    quantile is the atom. -/
+theorem dirac_inverse_cdf_eq_any {α : Type} [Add α] [Sub α] [Mul α] [Div α] [Neg α] [LT α] [LE α] [BEq α]
+    [DecidableLT α] [DecidableLE α] [OfScientific α] [Inhabited α] [RFun α]
+    (d : Dirac α) (p : α) (hp0 : (0.0 : α) ≤ p) (hp1 : p ≤ (1.0 : α)) :
+    Dirac.inverse_cdf d p = d.f_0 := by
+  unfold Dirac.inverse_cdf
+  rw [if_neg (not_not.mpr ⟨hp0, hp1⟩)]
 
-theorem dirac_loop3_eq (d : Dirac ℝ) (p : ℝ) : ∀ (fuel : Nat) (high : ℝ),
-    Dirac.inverse_cdf.loop3 fuel p d high = Lemmas.Bisect.loop3 (Dirac.cdf d) fuel p high := by
-  intro fuel
-  induction fuel with
-  | zero => intro high; rfl
-  | succ f ih =>
-    intro high
-    rw [Dirac.inverse_cdf.loop3, Lemmas.Bisect.loop3]
-    dsimp only
-    rw [ih]
+/-- Dirac, every carrier: outside `[0.0, 1.0]` (including a NaN `p`, for which both comparisons are
+    false) the call panics. -/
+theorem dirac_inverse_cdf_panics_any {α : Type} [Add α] [Sub α] [Mul α] [Div α] [Neg α] [LT α] [LE α] [BEq α]
+    [DecidableLT α] [DecidableLE α] [OfScientific α] [Inhabited α] [RFun α]
+    (d : Dirac α) (p : α) (hp : ¬ ((0.0 : α) ≤ p ∧ p ≤ (1.0 : α))) :
+    Dirac.inverse_cdf d p = panicV := by
+  unfold Dirac.inverse_cdf
+  rw [if_pos hp]
 
-theorem dirac_loop5_eq (d : Dirac ℝ) (p two : ℝ) : ∀ (fuel : Nat) (high low : ℝ) (i : Int),
-    Dirac.inverse_cdf.loop5 fuel p d two high low i = Lemmas.Bisect.loop5 (Dirac.cdf d) fuel p two high low i := by
-  intro fuel
-  induction fuel with
-  | zero => intro high low i; rfl
-  | succ f ih =>
-    intro high low i
-    rw [Dirac.inverse_cdf.loop5, Lemmas.Bisect.loop5]
-    by_cases hi : i ≠ 0
-    · rw [if_pos hi, if_pos hi]
-      by_cases hb : p ≤ Dirac.cdf d ((high + low) / two)
-      · simp only [if_pos hb, ih]
-      · simp only [if_neg hb, ih]
-    · rw [if_neg hi, if_neg hi]
+/-- Dirac over ℝ: `inverse_cdf d p = v` for every `p ∈ [0,1]` (endpoints included). -/
+theorem dirac_inverse_cdf_eq (d : Dirac ℝ) (p : ℝ) (hp0 : 0 ≤ p) (hp1 : p ≤ 1) :
+    Dirac.inverse_cdf d p = d.f_0 :=
+  dirac_inverse_cdf_eq_any d p (by norm_num; exact hp0) (by norm_num; exact hp1)
 
-theorem dirac_inverse_cdf_eq_bisect (d : Dirac ℝ) (p : ℝ) :
-    Dirac.inverse_cdf d p = Lemmas.Bisect.bisect (Dirac.cdf d) (Dirac.min d) (Dirac.max d) p := by
-  unfold Dirac.inverse_cdf Lemmas.Bisect.bisect
-  rfun_norm
-  rw [show (0.0:ℝ) = 0 by norm_num, show (1.0:ℝ) = 1 by norm_num, show (1:ℝ) + 1 = 2 by norm_num]
-  rw [dirac_loop1_eq, dirac_loop3_eq]
-  simp only [dirac_loop5_eq]
-  split_ifs
-  · rfl
-  · rfl
-  · generalize Lemmas.Bisect.loop1 (Dirac.cdf d) loopFuel p (-2) = r1
-    cases r1 with
-    | ret v => rfl
-    | hang => rfl
-    | done low =>
-      dsimp only
-      generalize Lemmas.Bisect.loop3 (Dirac.cdf d) loopFuel p 2 = r3
-      cases r3 with
-      | ret v => rfl
-      | hang => rfl
-      | done high =>
-        dsimp only
-        generalize Lemmas.Bisect.loop5 (Dirac.cdf d) loopFuel p 2 high low 16 = r5
-        cases r5 with
-        | ret v => rfl
-        | hang => rfl
-        | done t => obtain ⟨h, l, i⟩ := t; rfl
+/-- Dirac over ℝ: `p < 0` or `p > 1` panics (as documented). -/
+theorem dirac_inverse_cdf_panics (d : Dirac ℝ) (p : ℝ) (hp : p < 0 ∨ 1 < p) :
+    Dirac.inverse_cdf d p = panicV := by
+  apply dirac_inverse_cdf_panics_any
+  rintro ⟨h0, h1⟩
+  norm_num at h0 h1
+  rcases hp with hp | hp <;> linarith
+
+/-- Dirac: the result lies in `[min(), max()]` (all three are the atom) -/
+theorem dirac_inverse_cdf_mem (d : Dirac ℝ) (p : ℝ) (hp0 : 0 ≤ p) (hp1 : p ≤ 1) :
+    Dirac.min d ≤ Dirac.inverse_cdf d p ∧ Dirac.inverse_cdf d p ≤ Dirac.max d := by
+  rw [dirac_inverse_cdf_eq d p hp0 hp1]
+  unfold Dirac.min Dirac.max
+  exact ⟨le_rfl, le_rfl⟩
+
+/-- Dirac: `inverse_cdf` never decreases as `p` increases on `[0,1]` (it is constant) -/
+theorem dirac_inverse_cdf_mono (d : Dirac ℝ) (p q : ℝ) (hp0 : 0 ≤ p) (hpq : p ≤ q) (hq1 : q ≤ 1) :
+    Dirac.inverse_cdf d p ≤ Dirac.inverse_cdf d q := by
+  rw [dirac_inverse_cdf_eq d p hp0 (hpq.trans hq1), dirac_inverse_cdf_eq d q (hp0.trans hpq) hq1]
+
+/-- Dirac, round trip 1: `cdf (inverse_cdf p) = 1`, hence `≥ p`, for every `p ∈ [0,1]` (the cdf only
+    takes the values 0 and 1, so equality with `p` is possible only at `p = 1`) -/
+theorem dirac_cdf_inverse_cdf (d : Dirac ℝ) (p : ℝ) (hp0 : 0 ≤ p) (hp1 : p ≤ 1) :
+    Dirac.cdf d (Dirac.inverse_cdf d p) = 1 ∧ p ≤ Dirac.cdf d (Dirac.inverse_cdf d p) := by
+  rw [dirac_inverse_cdf_eq d p hp0 hp1]
+  have : Dirac.cdf d d.f_0 = 1 := by unfold Dirac.cdf; rw [if_neg (lt_irrefl _)]; norm_num
+  rw [this]
+  exact ⟨rfl, hp1⟩
+
+/-- Dirac, round trip 2: `inverse_cdf (cdf x) = v` for every `x` -/
+theorem dirac_inverse_cdf_cdf (d : Dirac ℝ) (x : ℝ) : Dirac.inverse_cdf d (Dirac.cdf d x) = d.f_0 := by
+  apply dirac_inverse_cdf_eq
+  · unfold Dirac.cdf; split_ifs <;> norm_num
+  · unfold Dirac.cdf; split_ifs <;> norm_num
+
+/-- Dirac: for `0 < p ≤ 1`, `inverse_cdf p` is the smallest `x` with `cdf x ≥ p` (the generalised
+    inverse of the cdf). -/
+theorem dirac_inverse_cdf_smallest (d : Dirac ℝ) (p : ℝ) (hp0 : 0 < p) (hp1 : p ≤ 1) :
+    p ≤ Dirac.cdf d (Dirac.inverse_cdf d p) ∧ ∀ x, x < Dirac.inverse_cdf d p → Dirac.cdf d x < p := by
+  refine ⟨(dirac_cdf_inverse_cdf d p hp0.le hp1).2, fun x hx => ?_⟩
+  rw [dirac_inverse_cdf_eq d p hp0.le hp1] at hx
+  unfold Dirac.cdf; rw [if_pos hx]; norm_num; exact hp0
 
 /-- the atom `v` is the `p`-quantile of the Dirac cdf for every `p ∈ (0,1)` -/
 theorem dirac_isQuantile (d : Dirac ℝ) (p : ℝ) (hp0 : 0 < p) (hp1 : p < 1) :
@@ -89,89 +102,197 @@ theorem dirac_isQuantile (d : Dirac ℝ) (p : ℝ) (hp0 : 0 < p) (hp1 : p < 1) :
   · unfold Dirac.cdf; rw [if_neg (not_lt.mpr hx)]; norm_num; exact hp1.le
   · unfold Dirac.cdf; rw [if_neg (not_lt.mpr hx.le)]; norm_num; exact hp1
 
-/-- Dirac (trait-default bisection): for `p ∈ (0,1)` and a finite atom (`|v| ≤ 2^1024`, which keeps
-    the doubling loops within their fuel) the result is within `2⁻¹⁵·max(1,|v|)` of the true
-    quantile `Q(p) = v`. -/
-theorem dirac_inverse_cdf_bisect_bound (d : Dirac ℝ) (hv : |d.f_0| ≤ 2 ^ 1024) (p : ℝ) (hp0 : 0 < p) (hp1 : p < 1) :
+/-- Dirac: the error bound `2⁻¹⁵·max(1,|v|)` of the generic bisection is met with error 0 — Dirac no
+    longer runs the bisection (the former hypothesis `|v| ≤ 2^1024`, which kept the inherited doubling
+    loops within their fuel, is not needed any more). -/
+theorem dirac_inverse_cdf_bisect_bound (d : Dirac ℝ) (p : ℝ) (hp0 : 0 < p) (hp1 : p < 1) :
     |Dirac.inverse_cdf d p - d.f_0| ≤ 2⁻¹ ^ 15 * max 1 |d.f_0| := by
-  rw [dirac_inverse_cdf_eq_bisect]
-  exact Lemmas.Bisect.bisect_bound (dirac_isQuantile d p hp0 hp1) _ _ hp0.ne' hp1.ne hv
+  rw [dirac_inverse_cdf_eq d p hp0.le hp1.le, sub_self, abs_zero]
+  positivity
 
-example : ∃ d : Dirac ℝ, |d.f_0| ≤ 2 ^ 1024 := ⟨⟨0⟩, by norm_num⟩
-
-/-! ## …but the result is not inside `[min, max]` and does not invert the cdf -/
+example : ∃ (d : Dirac ℝ) (p : ℝ), 0 ≤ p ∧ p ≤ 1 := ⟨⟨0⟩, 1 / 2, by norm_num, by norm_num⟩
 
 theorem dirac0_cdf (x : ℝ) : Dirac.cdf (⟨0⟩ : Dirac ℝ) x = if x < 0 then 0 else 1 := by
   unfold Dirac.cdf; norm_num
 
-theorem dirac0_loop5 (p : ℝ) (hp : 0 < p) (n : Nat) : ∀ (fuel : Nat) (c : ℝ), 0 < c → n < fuel →
-    Dirac.inverse_cdf.loop5 fuel p (⟨0⟩ : Dirac ℝ) 2 0 (-c) (n : Int) = LoopR.done (0, -c / 2 ^ n, 0) := by
-  induction n with
-  | zero =>
-    intro fuel c hc hf
-    obtain ⟨f, rfl⟩ : ∃ f, fuel = f + 1 := ⟨fuel - 1, by omega⟩
-    rw [Dirac.inverse_cdf.loop5]
-    simp
-  | succ n ih =>
-    intro fuel c hc hf
-    obtain ⟨f, rfl⟩ : ∃ f, fuel = f + 1 := ⟨fuel - 1, by omega⟩
-    rw [Dirac.inverse_cdf.loop5]
-    have hi : ((n + 1 : Nat) : Int) ≠ 0 := by omega
-    rw [if_pos hi]
-    dsimp only
-    rw [dirac0_cdf]
-    have hmid : (0 + -c) / 2 < 0 := by linarith
-    rw [if_pos hmid]
-    have hnp : ¬ (p ≤ 0) := not_le.mpr hp
-    simp only [if_neg hnp]
-    have hi2 : ((n + 1 : Nat) : Int) - 1 = (n : Int) := by push_cast; ring
-    rw [hi2]
-    have hc2 : (0 + -c) / 2 = -(c / 2) := by ring
-    rw [hc2, ih f (c / 2) (by linarith) (by omega)]
-    congr 2
-    rw [pow_succ]; field_simp
-
-/-- value computed by the trait-default bisection for the point mass at 0 -/
+/-- the point mass at 0 (the witness of the former finding): `inverse_cdf p = 0` for `p ∈ (0,1)`
+    (it was `-2⁻¹⁵` with the inherited bisection) -/
 theorem dirac0_inverse_cdf (p : ℝ) (hp0 : 0 < p) (hp1 : p < 1) :
-    Dirac.inverse_cdf (⟨0⟩ : Dirac ℝ) p = -(1 / 32768) := by
-  unfold Dirac.inverse_cdf
-  have h0 : ¬ ((p == (0.0:ℝ)) = true) := by rw [real_beq]; norm_num; exact hp0.ne'
-  have h1 : ¬ ((p == (1.0:ℝ)) = true) := by rw [real_beq]; norm_num; exact hp1.ne
-  rw [if_neg h0, if_neg h1]
-  dsimp only
-  rw [show ((1.0:ℝ) + (1.0:ℝ)) = 2 by norm_num]
-  have hf : loopFuel = 19999 + 1 := rfl
-  -- first loop: cdf(-2) = 0 < p, exits immediately
-  have l1 : Dirac.inverse_cdf.loop1 loopFuel p (⟨0⟩ : Dirac ℝ) (-2) = LoopR.done (-2) := by
-    rw [hf, Dirac.inverse_cdf.loop1, dirac0_cdf, if_pos (show (-2:ℝ) < 0 by norm_num), if_neg (not_lt.mpr hp0.le)]
-  -- second loop: cdf(2) = 1 ≥ p, exits immediately
-  have l3 : Dirac.inverse_cdf.loop3 loopFuel p (⟨0⟩ : Dirac ℝ) 2 = LoopR.done 2 := by
-    rw [hf, Dirac.inverse_cdf.loop3, dirac0_cdf, if_neg (show ¬ (2:ℝ) < 0 by norm_num), if_neg (not_lt.mpr hp1.le)]
-  -- bisection: first step moves `high` to 0, the remaining 15 halve `low`
-  have l5 : Dirac.inverse_cdf.loop5 loopFuel p (⟨0⟩ : Dirac ℝ) 2 2 (-2) 16 = LoopR.done (0, -2 / 2 ^ 15, 0) := by
-    rw [hf, Dirac.inverse_cdf.loop5, if_pos (show (16:Int) ≠ 0 by norm_num)]
-    dsimp only
-    rw [dirac0_cdf, show ((2:ℝ) + -2) / 2 = 0 by norm_num, if_neg (lt_irrefl _), if_pos hp1.le]
-    dsimp only
-    have := dirac0_loop5 p hp0 15 19999 2 (by norm_num) (by norm_num)
-    rw [show ((16:Int) - 1) = ((15:Nat):Int) by norm_num]
-    exact this
-  rw [l1]; dsimp only
-  rw [l3]; dsimp only
-  rw [l5]; dsimp only
-  norm_num
+    Dirac.inverse_cdf (⟨0⟩ : Dirac ℝ) p = 0 :=
+  dirac_inverse_cdf_eq _ p hp0.le hp1.le
 
-/-- FINDING (C05 fails for Dirac): `Dirac` inherits the trait-default bisection `inverse_cdf`.
-    For the point mass at 0 and every `p ∈ (0,1)` it returns `-2⁻¹⁵`, which is below
-    `min() = max() = 0` (outside `[min,max]`), and `cdf(inverse_cdf p) = 0 ≠ p`.
-    (All quantities are powers of two, so IEEE evaluation gives the same value.) -/
-theorem dirac_inverse_cdf_counterexample :
-    ∃ d : Dirac ℝ, ∀ p : ℝ, 0 < p → p < 1 →
-      Dirac.inverse_cdf d p < Dirac.min d ∧ Dirac.cdf d (Dirac.inverse_cdf d p) ≠ p := by
-  refine ⟨⟨0⟩, fun p hp0 hp1 => ?_⟩
-  rw [dirac0_inverse_cdf p hp0 hp1]
-  constructor
-  · unfold Dirac.min; norm_num
-  · rw [dirac0_cdf, if_pos (by norm_num)]; exact hp0.ne
+/-! ## the generic bound for the families that still use the trait-default loop -/
+
+section
+variable [SF ℝ]
+
+/-! ### Chi -/
+
+theorem chi_loop1_eq (d : Chi) (p : ℝ) : ∀ (fuel : Nat) (low : ℝ),
+    Chi.inverse_cdf.loop1 fuel p d low = Lemmas.Bisect.loop1 (Chi.cdf (α := ℝ) d) fuel p low := by
+  intro fuel
+  induction fuel with
+  | zero => intro low; rfl
+  | succ f ih =>
+    intro low
+    rw [Chi.inverse_cdf.loop1, Lemmas.Bisect.loop1]
+    dsimp only
+    rw [ih]
+
+theorem chi_loop3_eq (d : Chi) (p : ℝ) : ∀ (fuel : Nat) (high : ℝ),
+    Chi.inverse_cdf.loop3 fuel p d high = Lemmas.Bisect.loop3 (Chi.cdf (α := ℝ) d) fuel p high := by
+  intro fuel
+  induction fuel with
+  | zero => intro high; rfl
+  | succ f ih =>
+    intro high
+    rw [Chi.inverse_cdf.loop3, Lemmas.Bisect.loop3]
+    dsimp only
+    rw [ih]
+
+theorem chi_loop5_eq (d : Chi) (p two : ℝ) : ∀ (fuel : Nat) (high low : ℝ) (i : Int),
+    Chi.inverse_cdf.loop5 fuel p d two high low i =
+      Lemmas.Bisect.loop5 (Chi.cdf (α := ℝ) d) fuel p two high low i := by
+  intro fuel
+  induction fuel with
+  | zero => intro high low i; rfl
+  | succ f ih =>
+    intro high low i
+    rw [Chi.inverse_cdf.loop5, Lemmas.Bisect.loop5]
+    by_cases hi : i ≠ 0
+    · rw [if_pos hi, if_pos hi]
+      by_cases hb : p ≤ Chi.cdf (α := ℝ) d ((high + low) / two)
+      · simp only [if_pos hb, ih]
+      · simp only [if_neg hb, ih]
+    · rw [if_neg hi, if_neg hi]
+
+/-- the generated `Chi.inverse_cdf` is the abstract default bisection of `Statrs.Lemmas.Bisect` -/
+theorem chi_inverse_cdf_eq_bisect (d : Chi) (p : ℝ) :
+    Chi.inverse_cdf d p =
+      Lemmas.Bisect.bisect (Chi.cdf (α := ℝ) d) (Chi.min (α := ℝ) d) (Chi.max (α := ℝ) d) p := by
+  unfold Chi.inverse_cdf Lemmas.Bisect.bisect
+  rfun_norm
+  rw [show (0.0:ℝ) = 0 by norm_num, show (1.0:ℝ) = 1 by norm_num, show (1:ℝ) + 1 = 2 by norm_num]
+  rw [chi_loop1_eq, chi_loop3_eq]
+  simp only [chi_loop5_eq]
+  split_ifs
+  · rfl
+  · rfl
+  · generalize Lemmas.Bisect.loop1 (Chi.cdf (α := ℝ) d) loopFuel p (-2) = r1
+    cases r1 with
+    | ret v => rfl
+    | hang => rfl
+    | done low =>
+      dsimp only
+      generalize Lemmas.Bisect.loop3 (Chi.cdf (α := ℝ) d) loopFuel p 2 = r3
+      cases r3 with
+      | ret v => rfl
+      | hang => rfl
+      | done high =>
+        dsimp only
+        generalize Lemmas.Bisect.loop5 (Chi.cdf (α := ℝ) d) loopFuel p 2 high low 16 = r5
+        cases r5 with
+        | ret v => rfl
+        | hang => rfl
+        | done t => obtain ⟨h, l, i⟩ := t; rfl
+
+/-- Chi (trait-default bisection), relative to `Q` being the `p`-quantile of the model's cdf
+    (`IsQuantile`: cdf `< p` below `Q`, `≥ p` from `Q` on, `> p` above `Q`): for `p ∈ (0,1)` and
+    `|Q| ≤ 2^1024` (any finite `f64`; keeps the doubling loops within their fuel) the result is within
+    `2⁻¹⁵·max(1,|Q|)` of `Q`. -/
+theorem chi_inverse_cdf_bisect_bound_rel (d : Chi) (p Q : ℝ)
+    (hQ : Lemmas.Bisect.IsQuantile (Chi.cdf (α := ℝ) d) p Q) (hQb : |Q| ≤ 2 ^ 1024)
+    (hp0 : 0 < p) (hp1 : p < 1) :
+    |Chi.inverse_cdf d p - Q| ≤ 2⁻¹ ^ 15 * max 1 |Q| := by
+  rw [chi_inverse_cdf_eq_bisect]
+  exact Lemmas.Bisect.bisect_bound hQ _ _ hp0.ne' hp1.ne hQb
+
+/-! ### InverseGamma -/
+
+theorem inverse_gamma_loop1_eq (d : InverseGamma ℝ) (p : ℝ) : ∀ (fuel : Nat) (low : ℝ),
+    InverseGamma.inverse_cdf.loop1 fuel p d low = Lemmas.Bisect.loop1 (InverseGamma.cdf d) fuel p low := by
+  intro fuel
+  induction fuel with
+  | zero => intro low; rfl
+  | succ f ih =>
+    intro low
+    rw [InverseGamma.inverse_cdf.loop1, Lemmas.Bisect.loop1]
+    dsimp only
+    rw [ih]
+
+theorem inverse_gamma_loop3_eq (d : InverseGamma ℝ) (p : ℝ) : ∀ (fuel : Nat) (high : ℝ),
+    InverseGamma.inverse_cdf.loop3 fuel p d high = Lemmas.Bisect.loop3 (InverseGamma.cdf d) fuel p high := by
+  intro fuel
+  induction fuel with
+  | zero => intro high; rfl
+  | succ f ih =>
+    intro high
+    rw [InverseGamma.inverse_cdf.loop3, Lemmas.Bisect.loop3]
+    dsimp only
+    rw [ih]
+
+theorem inverse_gamma_loop5_eq (d : InverseGamma ℝ) (p two : ℝ) : ∀ (fuel : Nat) (high low : ℝ) (i : Int),
+    InverseGamma.inverse_cdf.loop5 fuel p d two high low i =
+      Lemmas.Bisect.loop5 (InverseGamma.cdf d) fuel p two high low i := by
+  intro fuel
+  induction fuel with
+  | zero => intro high low i; rfl
+  | succ f ih =>
+    intro high low i
+    rw [InverseGamma.inverse_cdf.loop5, Lemmas.Bisect.loop5]
+    by_cases hi : i ≠ 0
+    · rw [if_pos hi, if_pos hi]
+      by_cases hb : p ≤ InverseGamma.cdf d ((high + low) / two)
+      · simp only [if_pos hb, ih]
+      · simp only [if_neg hb, ih]
+    · rw [if_neg hi, if_neg hi]
+
+/-- the generated `InverseGamma.inverse_cdf` is the abstract default bisection -/
+theorem inverse_gamma_inverse_cdf_eq_bisect (d : InverseGamma ℝ) (p : ℝ) :
+    InverseGamma.inverse_cdf d p =
+      Lemmas.Bisect.bisect (InverseGamma.cdf d) (InverseGamma.min d) (InverseGamma.max d) p := by
+  unfold InverseGamma.inverse_cdf Lemmas.Bisect.bisect
+  rfun_norm
+  rw [show (0.0:ℝ) = 0 by norm_num, show (1.0:ℝ) = 1 by norm_num, show (1:ℝ) + 1 = 2 by norm_num]
+  rw [inverse_gamma_loop1_eq, inverse_gamma_loop3_eq]
+  simp only [inverse_gamma_loop5_eq]
+  split_ifs
+  · rfl
+  · rfl
+  · generalize Lemmas.Bisect.loop1 (InverseGamma.cdf d) loopFuel p (-2) = r1
+    cases r1 with
+    | ret v => rfl
+    | hang => rfl
+    | done low =>
+      dsimp only
+      generalize Lemmas.Bisect.loop3 (InverseGamma.cdf d) loopFuel p 2 = r3
+      cases r3 with
+      | ret v => rfl
+      | hang => rfl
+      | done high =>
+        dsimp only
+        generalize Lemmas.Bisect.loop5 (InverseGamma.cdf d) loopFuel p 2 high low 16 = r5
+        cases r5 with
+        | ret v => rfl
+        | hang => rfl
+        | done t => obtain ⟨h, l, i⟩ := t; rfl
+
+/-- InverseGamma (trait-default bisection), relative to `Q` being the `p`-quantile of the model's
+    cdf: for `p ∈ (0,1)` and `|Q| ≤ 2^1024` the result is within `2⁻¹⁵·max(1,|Q|)` of `Q`. -/
+theorem inverse_gamma_inverse_cdf_bisect_bound_rel (d : InverseGamma ℝ) (p Q : ℝ)
+    (hQ : Lemmas.Bisect.IsQuantile (InverseGamma.cdf d) p Q) (hQb : |Q| ≤ 2 ^ 1024)
+    (hp0 : 0 < p) (hp1 : p < 1) :
+    |InverseGamma.inverse_cdf d p - Q| ≤ 2⁻¹ ^ 15 * max 1 |Q| := by
+  rw [inverse_gamma_inverse_cdf_eq_bisect]
+  exact Lemmas.Bisect.bisect_bound hQ _ _ hp0.ne' hp1.ne hQb
+
+end
+
+/-- non-vacuity of the premise structure `IsQuantile` used by the generic bound (abstract cdf: the
+    Dirac cdf at 0 has the `1/2`-quantile 0 with `|0| ≤ 2^1024`; for Chi/InverseGamma the cdf goes
+    through the abstract `SF.gamma_lr`/`SF.gamma_ur`, so satisfiability is a premise on `SF ℝ`) -/
+example : ∃ (F : ℝ → ℝ) (p Q : ℝ), Lemmas.Bisect.IsQuantile F p Q ∧ |Q| ≤ 2 ^ 1024 ∧ 0 < p ∧ p < 1 :=
+  ⟨Dirac.cdf (⟨0⟩ : Dirac ℝ), 1 / 2, 0, dirac_isQuantile ⟨0⟩ (1 / 2) (by norm_num) (by norm_num),
+    by norm_num, by norm_num, by norm_num⟩
 
 end Statrs.Props.C05
